@@ -927,6 +927,43 @@ def _job_extra(a):
             elif inner["r"][0] == "ok" and "retry" in l1.futs and l1.fstate("retry")[0] == "pending":
                 bad("reentrant-request-pending-forever", "%s: the request issued from the errback is still "
                     "pending after leave and disconnect (callbacks %s)" % (label, cbs))
+    # ---- (5) API calls made from INSIDE the end-of-session callbacks (onLeave, onDisconnect, their
+    # 'leave' / 'disconnect' listeners): the session has ended - every such call raises or returns an
+    # already failed result, none stays pending
+    for end in ("lost", "router-goodbye-then-lost"):
+        for where in ("leave-listener", "disconnect-listener"):
+            l1 = H.L1()
+            l1.join()
+            s, tr = l1.session, l1.transport
+            results = []
+
+            def late_api(*a_, _s=s, _l1=l1, _results=results, **k_):
+                from autobahn.wamp.types import PublishOptions
+                for kind, fn in (("call", lambda: _s.call("com.late.p", 1)),
+                                 ("publish", lambda: _s.publish("com.late.t", 1, options=PublishOptions(acknowledge=True))),
+                                 ("subscribe", lambda: _s.subscribe(lambda *x, **y: None, "com.late.t")),
+                                 ("register", lambda: _s.register(lambda *x, **y: None, "com.late.p"))):
+                    r = _l1.api(fn)
+                    if r[0] == "ok" and r[1] is not None:
+                        _l1.track("late:" + kind, r[1])
+                    _results.append((kind, r[0]))
+            s.on("leave" if where == "leave-listener" else "disconnect", late_api)
+            if end == "router-goodbye-then-lost":
+                l1.deliver(M.Goodbye("wamp.close.system_shutdown"))
+                l1.settle()
+            if not l1.closed:
+                l1.lose(end != "lost")
+            l1.settle()
+            n += 1
+            label = "%s, API calls from the %s" % (end, where)
+            if len(results) != 4:
+                bad("listener-not-run", "%s: %r" % (label, results))
+            if where == "disconnect-listener" or end == "lost":
+                # the transport is gone when these listeners run
+                for kind, how in results:
+                    if how == "ok" and ("late:" + kind) in l1.futs and l1.fstate("late:" + kind)[0] == "pending":
+                        bad("late-request-pending-forever", "%s: %s() issued there is still pending after the "
+                            "end of the session" % (label, kind))
     return {"evals": n, "viol": viol, "stats": {"extra_execs": n, "nontrivial": n, "execs": n},
             "samples": [{"kind": "extra", "cases": n}]}
 
